@@ -46,9 +46,9 @@ theorem irr_nonneg {F : Fn α} {P : IrrParams α} {cells : List (Cell α)} {st :
   Aqua.irr_nonneg h
 
 /-- Runoff of the rain partition is never negative (non-negative rain; curve number in `(0,100]`
-where the SCS split runs), and the runoff `infiltration` adds is never negative (non-negative
-ponding, `Ksat ≥ 0`). -/
-theorem runoff_nonneg {F : Fn α} {p : α} {cells : List (Cell α)} {daySub : Nat}
+where the SCS split runs; law `x ** 2 = x · x` for the `term ** 2` of the SCS formula), and the
+runoff `infiltration` adds is never negative (non-negative ponding, `Ksat ≥ 0`). -/
+theorem runoff_nonneg {F : Fn α} (hF : PowSqLaw F) {p : α} {cells : List (Cell α)} {daySub : Nat}
     {srInhb bunds : Bool} {zBund pct soilCN zCN : α} {adjCN : Bool} {r : RainOut α}
     (h : rainPartition F p cells daySub srInhb bunds zBund pct soilCN adjCN zCN = some r)
     (hp : 0 ≤ p)
@@ -57,7 +57,7 @@ theorem runoff_nonneg {F : Fn α} {p : α} {cells : List (Cell α)} {daySub : Na
     (h' : infiltration F cells' pond r.infl irr appEff bunds zBund dp0 r.runoff gs = .ok out)
     (hpond : 0 ≤ pond) (hk : ∀ c ∈ cells', 0 ≤ c.c.ksat) :
     0 ≤ r.runoff ∧ 0 ≤ out.runoffTot := by
-  have h1 := (rainPartition_bounds h hp hcn).1
+  have h1 := (rainPartition_bounds hF h hp hcn).1
   have h2 := infiltration_runoff_nonneg h' hpond hk
   exact ⟨h1, by linarith⟩
 
